@@ -15,7 +15,8 @@ LEVEL = 'proof'
 HERE = os.path.dirname(os.path.abspath(__file__))
 SPEC = load_spec_module(os.path.join(HERE, '..', 'contracts', 'C08.py'), 'contracts.C08')
 
-FUNCTIONS = ['jesse.services.candle.split_candle', 'jesse.services.candle.is_bullish', 'jesse.services.candle.is_bearish',
+FUNCTIONS = ['jesse.modes.backtest_mode._simulate_price_change_effect', 'jesse.modes.backtest_mode._get_fixed_jumped_candle',
+             'jesse.services.candle.split_candle', 'jesse.services.candle.is_bullish', 'jesse.services.candle.is_bearish',
              'jesse.services.candle.candle_includes_price', 'jesse.modes.backtest_mode._sort_execution_orders']
 ASSUMPTIONS = [
     'A-1 floats are mathematical reals (exact here: split_candle and the sort only compare and select)',
@@ -62,6 +63,80 @@ def t_split(h):
     for name, text in K.SPLIT_ENSURES.items():
         h.prove(h.ev(text, c=c, p=p, e=e, l=l), f'split_candle.{name}', {'clause': text})
     h.prove(h.ev(K.SPLIT_MUSTFAIL, c=c, p=p, e=e, l=l), 'split_candle.mustfail')
+
+
+BM = 'jesse.modes.backtest_mode'
+
+
+def t_protocol(n_rest):
+    """trace contract of _simulate_price_change_effect with the ghost variable `remaining` (the part of the minute's path
+    not yet consumed): every candidate query and every split works on `remaining`, each split advances it to the later
+    part, and a candidate list of two or more orders is put into path order (over `remaining`) before anything is filled"""
+    def t(h):
+        from props import C02 as P2
+        W = P2.match_world(h, n_rest, allow_new=True, hook_cancels=False)
+        c = h.vec('c', 6)
+        P2.valid_candle(h, c)
+        trace = []
+        ov = h.ctx.cfg.overrides
+
+        def spy(qual, tag):
+            real = h.repo.find(qual)
+
+            def f(i, a, k):
+                ov.pop(qual)
+                try:
+                    r = i.call(real, list(a), k)
+                finally:
+                    ov[qual] = f
+                trace.append((tag, list(a), r))
+                return r
+            ov[qual] = f
+        spy(f'{BM}._get_executing_orders', 'candidates')
+        spy(f'{BM}._sort_execution_orders', 'sort')
+        spy('jesse.services.candle.split_candle', 'split')
+        real_exec = ov['jesse.models.Order.Order.execute']
+
+        def exec_spy(i, a, k):
+            trace.append(('execute', list(a), None))
+            return real_exec(i, a, k)
+        ov['jesse.models.Order.Order.execute'] = exec_spy
+        h.cover('protocol.pre')
+        out = h.outcome(f'{BM}._simulate_price_change_effect', c, 'Sandbox', 'BTC-USDT')
+        h.prove(out.ok, 'protocol.no-exception', {'raised': out.exc})
+        if not out.ok:
+            return
+
+        def same_candle(x, y):
+            xv = x if isinstance(x, Vec) else (x.fn(0) if isinstance(x, Arr) and x.cols is not None else None)
+            if xv is None or not isinstance(y, Vec):
+                return False
+            g = True
+            for a_, b_ in zip(xv.e, y.e):
+                g = ops.land(g, ops.equal(a_, b_))
+            return g
+        remaining = Vec(list(c.e))
+        g_cand, g_split, g_sorted = True, True, True
+        pending_sort = None
+        for tag, a, r in trace:
+            if tag == 'candidates':
+                g_cand = ops.land(g_cand, same_candle(a[2], remaining))
+                pending_sort = r if len(r) > 1 else None
+            elif tag == 'sort':
+                ok = pending_sort is not None and a[0] is pending_sort
+                g_sorted = ops.land(g_sorted, ops.land(ok, same_candle(a[1], remaining)))
+                pending_sort = None
+            elif tag == 'split':
+                g_split = ops.land(g_split, same_candle(a[0], remaining))
+                remaining = Vec(list(r[1].e))
+            elif tag == 'execute':
+                g_sorted = ops.land(g_sorted, pending_sort is None)
+        h.prove(g_cand, 'protocol.candidates-are-taken-from-the-remaining-part-of-the-path')
+        h.prove(g_split, 'protocol.each-fill-splits-the-remaining-part-not-the-whole-minute')
+        h.prove(g_sorted, 'protocol.two-or-more-candidates-are-sorted-over-the-remaining-part-before-any-fill')
+        if n_rest == 1:
+            h.prove(len([t_ for t_ in trace if t_[0] == 'split']) == 0, 'protocol.mustfail')
+    return t
 
 
 def mk_sort_task(n, red):
@@ -112,4 +187,13 @@ def tasks(tier):
                            functions=[K.SORT_FUNCTION],
                            extra={'spec_mod': SPEC, 'bounded': f'number of resting orders N<={nmax} (prices symbolic reals)'},
                            max_paths=200000))
+    from pyvc import stubs
+    import props.C02 as P2
+    import props.C07 as P7
+    ov = stubs.backtest_mode()
+    for n in ((1, 2) if tier == 'quick' else (1, 2, 3)):
+        ts.append(Task(f'protocol.n{n}', t_protocol(n), extra={'spec_mod': P2.SPEC, 'bounded': f'{n} resting orders + one reaction order'},
+                       overrides=dict(ov), max_paths=200000))
+    # the gap to the previous close is part of the minute's path (quantifier of C08): proved for all reals
+    ts.append(Task('fixed-jump', P7.t_fixed_jump, extra={'spec_mod': P7.SPEC}, overrides=dict(ov)))
     return ts
